@@ -12,15 +12,16 @@ RULE = ("maps are built through the public API by harness/c06_gen.py (entities w
         "fixups with explicit and lowest-free indexes, hidden objects, brush entities, prisms and free faces, "
         "displacements of power 1-4 with random vertex data and multiblend, nested visgroups, groups, cameras, cordons, "
         "Strata viewports/point data, repeated and hash-colliding ids), plus every .vmf under /repo/tests; each map is "
-        "checked under options (minimal, disp_multiblend) x preserve_ids. A case = (map seed, profile, options); "
+        "checked under options (minimal, disp_multiblend) x preserve_ids; the parser is additionally fed key-dropped variants of exported trees "
+        "(one node of a uniformly chosen kind removed, or every node removed with probability 3-30%). A case = (map seed, profile, options[, variant]); "
         "non-trivial = the map has at least one entity or brush besides the bare worldspawn; distinct by the dump of the map.")
-TRUSTED = ["model: C06.exportTree / C06.parseTree / C06.project (lean/Srctools/Model/C06.lean) at the KV-tree level; the text level "
-           "(tokenizer, escape_text, Keyvalues.parse) is the subject of C01/C02/C03 and is exercised here only through the search oracle",
+TRUSTED = ["models: C06.exportTree / parseTree / project (Model/C06.lean, KV-tree level) and C06.exportText (Model/C06Text.lean: the "
+           "f-string writers of every class as a layout tree - indentation, unquoted block headers, which fields pass through "
+           "escape_text and in which mode), the latter compared CHARACTER FOR CHARACTER with VMF.export(); the tokenizer and "
+           "Keyvalues.parse models are those of C02/C03/C01 (their correspondence is run by those checks)",
            "numbers reach the model as canonical numeric strings produced by the implementation's own formatters "
            "(format_float, %g, str); their closeness to the original value is checked on the implementation only (search oracle)"]
 NOT_MODELLED = [
-    "text level: the tokenizer, escape_text and Keyvalues.parse (subject of C01/C02/C03) - exercised here by the search oracle only; "
-    "a theorem C06_text composing the tree-level theorems with C01_roundtrip is not stated",
     "float parsing: numbers are carried as tokens; that the implementation's formatter/parser pair is the identity on them and within "
     "5e-7 / six significant digits of the original value is checked on the implementation only (search oracle), formally it belongs to C05",
     "int() / float() corner forms (surrounding whitespace, '_' separators, non-ASCII digits) and str.casefold() outside ASCII",
@@ -365,6 +366,101 @@ def _tree_diff(a, b, path='root'):
     return None
 
 
+def kv_from_tree(tree):
+    """A Keyvalues root built directly from a KV tree (no text involved)."""
+    from srctools.keyvalues import Keyvalues
+
+    def node(n):
+        name = ''.join(map(chr, n[1]))
+        if n[0] == 0:
+            return Keyvalues(name, ''.join(map(chr, n[2])))
+        return Keyvalues(name, [node(c) for c in n[2]])
+    return Keyvalues.root(*[node(n) for n in tree])
+
+
+def drop_variant(rng, tree, p):
+    """The tree with nodes removed at random (each node with probability p, recursively): documents
+    in which optional keys are absent, as in files not written by this library."""
+    out = []
+    for n in tree:
+        if rng.random() < p:
+            continue
+        if n[0] == 1:
+            out.append([1, n[1], drop_variant(rng, n[2], p)])
+        else:
+            out.append(n)
+    return out
+
+
+def drop_one(rng, tree):
+    """Remove exactly one node; the node is chosen by first picking a *kind* of node uniformly (the
+    path of names from the root, digits removed: world/solid/side/lightmapscale, …) so that rare
+    keys are dropped as often as the thousands of displacement rows."""
+    kinds = {}
+
+    def walk(t, path, sig):
+        for i, n in enumerate(t):
+            nm = re.sub(r'[0-9]+', '#', ''.join(map(chr, n[1])).casefold())
+            sg = sig + (nm,)
+            kinds.setdefault(sg, []).append(path + [i])
+            if n[0] == 1:
+                walk(n[2], path + [i], sg)
+    walk(tree, [], ())
+    if not kinds:
+        return tree
+    target = rng.choice(kinds[rng.choice(sorted(kinds))])
+    t = copy.deepcopy(tree)
+    cur = t
+    for i in target[:-1]:
+        cur = cur[i][2]
+    del cur[target[-1]]
+    return t
+
+
+def correspond_dropped(ctx, drv, base):
+    """Feed the PARSER documents where keys are absent and compare with the model (defaults as
+    coded). `base` = list of (case, exported tree)."""
+    from srctools.vmf import VMF
+    rng = random.Random(f'{ctx.pid}:{ctx.seed}:drop')
+    reqs, meta = [], []
+    per = ctx.budget(8, 24)
+    for case, tree in base:
+        for j in range(per):
+            if j % 2 == 0:
+                var = drop_one(rng, tree)
+                kind = 'one'
+            else:
+                var = drop_variant(rng, tree, rng.choice([0.03, 0.1, 0.3]))
+                kind = 'many'
+            preserve = (j % 4) < 2
+            try:
+                got = ('ok', G.dump_map(VMF.parse(kv_from_tree(var), preserve_ids=preserve)))
+            except Exception as e:
+                got = ('err', f'{type(e).__name__}: {str(e)[:100]}')
+            reqs.append({'op': 'parse', 'preserve': preserve, 'tree': var})
+            meta.append((dict(case, dropped=kind, variant=j, preserve=preserve), got, var))
+    if not reqs:
+        return
+    for (c, got, var), r in zip(meta, drv.batch(reqs)):
+        ctx.case(c, nontrivial=True, sample_every=211)
+        ctx.count('correspond: key-dropped documents')
+        ctx.count('correspond: key-dropped -> ' + ('parse error' if got[0] == 'err' else 'parsed'))
+        ctx.traces_vs_impl += 1
+        if got[0] == 'err' or 'ok' not in r:
+            if not (got[0] == 'err' and 'err' in r):
+                ctx.disagree(c, got[1] if got[0] == 'err' else 'ok', r.get('err', r.get('error', 'ok')),
+                             'parseTree on a key-dropped document: error behaviour (impl vs model)')
+            continue
+        a, b = canon_model(got[1]), canon_model(r['ok'])
+        if not c['preserve']:
+            for dd in (a, b):
+                for e in [dd['spawn']] + dd['ents']:
+                    e['keys'] = [kv if ''.join(map(chr, kv[0])).casefold() != 'nodeid' else [kv[0], []] for kv in e['keys']]
+        df = G.diff(a, b)
+        if df:
+            ctx.disagree(c, 'impl map', df, 'parseTree on a key-dropped document: VMF.parse vs model (impl vs model)')
+
+
 def correspond(ctx, drivers):
     from srctools.vmf import VMF
     from srctools.keyvalues import Keyvalues
@@ -408,6 +504,7 @@ def correspond(ctx, drivers):
             break
     replies = drv.batch(reqs)
     it = iter(replies)
+    correspond_dropped(ctx, drv, [(c, tree) for c, tree, _, _ in meta[:ctx.budget(60, 200)] if not c['minimal']])
     for c, tree, res, t1 in meta:
         r_txt, r_exp, r_pt, r_pf, r_proj, r_rt = next(it), next(it), next(it), next(it), next(it), next(it)
         ctx.traces_vs_impl += 1
@@ -518,13 +615,15 @@ def replay_known(ctx, finding):
     return any(k == finding['key'] for k, _ in fails)
 
 
-LEVEL_TEXT = ("Lean theorems about an executable tree-level model of VMF.export / VMF.parse (all classes, id managers, displacement and "
-              "Strata data included): C06_tree_roundtrip (parseTree true (exportTree o m) = ok (project o m)) and "
+LEVEL_TEXT = ("Lean theorems about executable models of VMF.export (text and keyvalues tree) and VMF.parse (all classes, id managers, displacement and "
+              "Strata data included): C06_text (VMF.parse(Keyvalues.parse(export text)) = project, via C06_text_tree: the exported text lexes and parses "
+              "to exportTree, any chunking), C06_tree_roundtrip (parseTree true (exportTree o m) = ok (project o m)) and "
               "C06_fixed_point (the second export equals the first) are proved for every well-formed map "
               "(displacement arrays incl. multiblend and Strata point data are inside the round-trip theorem) and every option set, with per-structure theorems for entities, outputs, solids, "
-              "faces, visgroups, groups, cameras, cordons and viewports; C06_keys_written_are_read re-checks on every run that every key "
-              "written by an export is read by the matching parse in the current source. The model is tied to the code by a node-for-node "
-              "comparison of Keyvalues.parse(VMF.export()) with exportTree, of VMF.parse with parseTree (both preserve_ids modes) and of "
+              "faces, visgroups, groups, cameras, cordons and viewports; C06_keys_written_are_read / C06_reader_defaults re-check on every run that every key "
+              "written by an export is read by the matching parse and that the readers' literal defaults are the modelled ones. The models are tied to the code by a "
+              "character-for-character comparison of VMF.export() with exportText, a node-for-node comparison of Keyvalues.parse(VMF.export()) with exportTree, "
+              "of VMF.parse with parseTree (both preserve_ids modes; also on key-dropped documents, which exercise the readers' defaults) and of "
               "project, on generated maps and every .vmf under tests/.")
 LEVEL_NOTE = ("Trusted: Lean kernel + propext/Classical.choice/Quot.sound; tools/gen_vmfKeys.py; the harness (map generator, dump, driver protocol). "
               "Numeric closeness and the text level are established by differential testing and the "
